@@ -155,6 +155,7 @@ structure Spelling where
   us : List Bool := []      -- digit grouping underscores
   wsL : Str := []           -- surrounding whitespace
   wsR : Str := []
+  deriving DecidableEq, Repr
 
 def Spelling.WF (sp : Spelling) : Prop := (∀ c ∈ sp.wsL, isWsInt c = true) ∧ (∀ c ∈ sp.wsR, isWsInt c = true)
 
